@@ -342,12 +342,13 @@ class NestedChildren(WrappingQuery):
                 m.next()
 
                 # Find the next parent document (matching or not) after this
-                nextparent = comb.after(nextchild)
+                # one (it can be the very next document)
+                nextparent = comb.after(nextchild - 1)
                 if nextparent is None:
                     nextparent = limit
 
                 # Skip any deleted child documents
-                while is_deleted(nextchild):
+                while nextchild < nextparent and is_deleted(nextchild):
                     nextchild += 1
 
                 # If skipping deleted documents put us to or past the next
